@@ -311,7 +311,7 @@ func (d *badgerNodeDB) Finalize(roots []node.Root) error { // nolint: gocyclo
 	rootIt := tx.NewIterator(badger.IteratorOptions{Prefix: rootsPrefix})
 	defer rootIt.Close()
 
-	var removeMetaKeys [][]byte
+	var removeMetaKeys, removeRootKeys [][]byte
 	finalizedSeqNos := make(map[byte]uint16)
 	maybeLoneNodes := make(map[byte]map[string]struct{})
 	notLoneNodes := make(map[byte]map[string]struct{})
@@ -381,6 +381,10 @@ func (d *badgerNodeDB) Finalize(roots []node.Root) error { // nolint: gocyclo
 			// control will make sure they are not removed if they are resurrected in any later
 			// version as long as we make sure that these nodes are not shared with any finalized
 			// roots added in the same version.
+			// The root itself must go as well, otherwise it would still be reported as present
+			// although its nodes are removed below.
+			removeRootKeys = append(removeRootKeys, rootIt.Item().KeyCopy(nil))
+
 			for _, un := range updatedNodes {
 				if un.Removed {
 					continue // Ignore removed nodes for non-finalized roots.
@@ -472,6 +476,13 @@ func (d *badgerNodeDB) Finalize(roots []node.Root) error { // nolint: gocyclo
 			if err := batch.Delete(finalizedNodeKeyFmt.Encode(rht, []byte(k))); err != nil {
 				return fmt.Errorf("mkvs/pathbadger: failed to delete lone node: %w", err)
 			}
+		}
+	}
+
+	// Remove non-finalized roots.
+	for _, key := range removeRootKeys {
+		if err := batch.Delete(key); err != nil {
+			return fmt.Errorf("mkvs/pathbadger: failed to delete non-finalized root: %w", err)
 		}
 	}
 
